@@ -14,7 +14,16 @@ import (
 type Val struct {
 	A uint32 `json:"a"`
 	W uint64 `json:"w"`
+	K uint32 `json:"k"` // BLS key code (0 = derived from the address); validators may share or swap keys
 }
+
+func blsKey(v Val) []byte {
+	if v.K == 0 {
+		return []byte{byte(v.A)}
+	}
+	return []byte{0xee, byte(v.K)}
+}
+
 type Change struct {
 	PC      uint64   `json:"pc"`
 	Cert    uint64   `json:"cert"`
@@ -63,7 +72,7 @@ func (slot10) GetSlotNumber(unixTime uint32) int { return int(unixTime / 10) }
 func Generators(c Change) liskbft.Generators {
 	lv := labi.Validators{}
 	for _, v := range c.Vals {
-		lv = append(lv, &labi.Validator{Address: Addr(v.A), BFTWeight: v.W, GeneratorKey: []byte{byte(v.A), 1}, BLSKey: []byte{byte(v.A)}})
+		lv = append(lv, &labi.Validator{Address: Addr(v.A), BFTWeight: v.W, GeneratorKey: []byte{byte(v.A), 1}, BLSKey: blsKey(v)})
 	}
 	for _, a := range c.Standby {
 		lv = append(lv, &labi.Validator{Address: Addr(a), BFTWeight: 0, GeneratorKey: []byte{byte(a), 1}, BLSKey: []byte{}})
@@ -94,49 +103,96 @@ func AddrN(a []byte) uint32 {
 func Vals(vs []Val) liskbft.BFTValidators {
 	out := liskbft.BFTValidators{}
 	for _, v := range vs {
-		out = append(out, liskbft.NewValidator(Addr(v.A), v.W, []byte{byte(v.A)}))
+		out = append(out, liskbft.NewValidator(Addr(v.A), v.W, blsKey(v)))
 	}
 	return out
 }
 
 var prefix = []byte{10}
 
-// RunCase executes the blocks of c on the real module and fills c.Obs (stops at the first error).
-func RunCase(c *Case) {
+// Node is one liskbft module over one database, as the consensus Executer uses it: blocks are applied one by one (each
+// committed with its revert diff kept) and the newest one can be reverted again (RevertLast), which is what a chain switch does.
+type Node struct {
+	Batch  int
+	commit bool
+	m      *liskbft.Module
+	dbase  *db.DB
+	store  *diffdb.Database
+	diffs  []*diffdb.Diff
+}
+
+func (n *Node) Close() { n.dbase.Close() }
+
+func (n *Node) doCommit() {
+	if !n.commit {
+		return
+	}
+	batch := n.dbase.NewBatch()
+	d := n.store.Commit(batch)
+	n.dbase.Write(batch)
+	n.diffs = append(n.diffs, d)
+	n.store = diffdb.New(n.dbase, prefix)
+}
+
+// RevertLast undoes the newest committed block by applying its revert diff (only for nodes that commit per block).
+func (n *Node) RevertLast() {
+	d := n.diffs[len(n.diffs)-1]
+	n.diffs = n.diffs[:len(n.diffs)-1]
+	batch := n.dbase.NewBatch()
+	n.store.RevertDiff(batch, d)
+	n.dbase.Write(batch)
+	n.store = diffdb.New(n.dbase, prefix)
+}
+
+// NewNode initialises genesis state and the initial parameters; ok=false if SetBFTParameters rejects them.
+func NewNode(c *Case) (*Node, bool) {
 	database, err := db.NewInMemoryDB()
 	if err != nil {
 		panic(err)
 	}
-	defer database.Close()
-	m := liskbft.NewModule()
-	if err := m.Init(c.Batch); err != nil {
+	n := &Node{Batch: c.Batch, commit: c.Commit, m: liskbft.NewModule(), dbase: database}
+	if err := n.m.Init(c.Batch); err != nil {
 		panic(err)
 	}
-	store := diffdb.New(database, prefix)
-	commit := func() {
-		if !c.Commit {
-			return
-		}
-		batch := database.NewBatch()
-		store.Commit(batch)
-		database.Write(batch)
-		store = diffdb.New(database, prefix)
-	}
+	n.store = diffdb.New(database, prefix)
 	gen := &blockchain.BlockHeader{Height: c.GH, AggregateCommit: &blockchain.AggregateCommit{}}
-	if err := m.InitGenesisState(gen.Readonly(), store); err != nil {
+	if err := n.m.InitGenesisState(gen.Readonly(), n.store); err != nil {
 		panic(err)
 	}
+	if err := n.m.API().SetBFTParameters(n.store, c.Init.PC, c.Init.Cert, Vals(c.Init.Vals)); err != nil {
+		return n, false
+	}
+	if err := n.m.API().SetGeneratorKeys(n.store, Generators(c.Init)); err != nil {
+		panic(err)
+	}
+	n.doCommit()
+	n.diffs = nil
+	return n, true
+}
+
+// RunCase executes the blocks of c on the real module and fills c.Obs (stops at the first error).
+func RunCase(c *Case) {
+	n, ok := NewNode(c)
+	defer n.Close()
 	c.Obs = []Obs{}
-	if err := m.API().SetBFTParameters(store, c.Init.PC, c.Init.Cert, Vals(c.Init.Vals)); err != nil {
-		c.InitOK = false
+	c.InitOK = ok
+	if !ok {
 		return
 	}
-	c.InitOK = true
-	if err := m.API().SetGeneratorKeys(store, Generators(c.Init)); err != nil {
-		panic(err)
-	}
-	commit()
 	for _, b := range c.Blocks {
+		o := n.Apply(b)
+		c.Obs = append(c.Obs, o)
+		if o.Err != 0 {
+			return
+		}
+	}
+}
+
+// Apply processes one block like processValidated does with the BFT module and returns the observation.
+func (n *Node) Apply(b Block) Obs {
+	m := n.m
+	store := n.store
+	{
 		ac := &blockchain.AggregateCommit{}
 		if b.Cert != nil {
 			ac = &blockchain.AggregateCommit{Height: *b.Cert, AggregationBits: []byte{1}, CertificateSignature: []byte{1}}
@@ -152,8 +208,7 @@ func RunCase(c *Case) {
 		o.Contra = contra
 		if err := m.BeforeTransactionsExecute(bh.Readonly(), store); err != nil {
 			o.Err = 1
-			c.Obs = append(c.Obs, o)
-			return
+			return o
 		}
 		imp, err := m.API().ImpliesMaximalPrevotes(store, bh.Readonly())
 		switch {
@@ -165,14 +220,14 @@ func RunCase(c *Case) {
 		if b.Chg != nil {
 			if err := m.API().SetBFTParameters(store, b.Chg.PC, b.Chg.Cert, Vals(b.Chg.Vals)); err != nil {
 				o.Err = 2
-				c.Obs = append(c.Obs, o)
-				return
+				return o
 			}
 			if err := m.API().SetGeneratorKeys(store, Generators(*b.Chg)); err != nil {
 				panic(err)
 			}
 		}
-		commit()
+		n.doCommit()
+		store = n.store
 		pv, pc, ct, err := m.API().GetBFTHeights(store)
 		if err != nil {
 			panic(err)
@@ -226,6 +281,6 @@ func RunCase(c *Case) {
 				}
 			}
 		}
-		c.Obs = append(c.Obs, o)
+		return o
 	}
 }
